@@ -36,7 +36,7 @@ type vEv struct {
 }
 
 var vKeys = []string{"cas/k0", "cas/k1", "cas/k2", "cas/k3", "cas/k4", "cas/k5", "cas/k6"}
-var vRandoms = []string{"101", "102", "103", "104", "105", "106", "107"}
+var vRandoms = []string{"101", "102", "103", "104", "105", "106", "107", "108", "109"}
 
 type vState struct {
 	c       *SizedLRU
@@ -206,7 +206,12 @@ const (
 	vDir   = "/cache"
 )
 
-var vHashes = []string{vHashB, vHashC, vHashD}
+var vHashes = []string{vHashB, vHashC, vHashD,
+	"1111111111111111111111111111111111111111111111111111111111111111",
+	"2222222222222222222222222222222222222222222222222222222222222222",
+	"3333333333333333333333333333333333333333333333333333333333333333",
+	"4444444444444444444444444444444444444444444444444444444444444444",
+	"5555555555555555555555555555555555555555555555555555555555555555"}
 
 // vProxy is an arbitrary backend.
 type vProxy struct {
@@ -219,6 +224,8 @@ type vProxy struct {
 	getErr   error
 	hasBlob  bool
 	hasSize  int64
+	hasByHash map[string]bool // when non-nil overrides hasBlob per hash
+	asked     []string
 }
 
 type vProxyPut struct {
@@ -240,6 +247,10 @@ func (p *vProxy) Get(ctx context.Context, kind cache.EntryKind, hash string, siz
 
 func (p *vProxy) Contains(ctx context.Context, kind cache.EntryKind, hash string, size int64) (bool, int64) {
 	p.contains++
+	p.asked = append(p.asked, hash)
+	if p.hasByHash != nil {
+		return p.hasByHash[hash], p.hasSize
+	}
 	return p.hasBlob, p.hasSize
 }
 
@@ -256,6 +267,11 @@ type vDisk struct {
 // arbitrary valid state with n entries (keys vHashes[i] of kind kinds[i]),
 // each with its file in place.
 func vNewDisk(n int, mode casblob.CompressionType, kinds []cache.EntryKind, withProxy bool) *vDisk {
+	return vNewDiskKeys(n, mode, kinds, vHashes, withProxy)
+}
+
+// vNewDiskKeys: entry i has key (kinds[i], hashes[i]).
+func vNewDiskKeys(n int, mode casblob.CompressionType, kinds []cache.EntryKind, hashes []string, withProxy bool) *vDisk {
 	vmodel.ResetFS()
 	d := &vDisk{kinds: kinds}
 	d.codec = &zstdimpl.VCodec{FileID: "none"}
@@ -277,7 +293,7 @@ func vNewDisk(n int, mode casblob.CompressionType, kinds []cache.EntryKind, with
 	keys := make([]string, n)
 	legacy := make([]bool, n)
 	for i := 0; i < n; i++ {
-		keys[i] = cache.LookupKey(kinds[i], vHashes[i])
+		keys[i] = cache.LookupKey(kinds[i], hashes[i])
 		legacy[i] = kinds[i] == cache.CAS && mode == casblob.Identity
 	}
 	d.st = vPreInto(&c.lru, n, keys, legacy)
